@@ -47,9 +47,11 @@ where
     T: Hash + Eq + Clone + Ord + Display + Send + Sync,
     A: Clone + Send + Sync,
 {
+    // self-loops never count: a node is not its own neighbour
     let nbrs = graph.get_successors_or_neighbors(v.clone());
     let (clustering_v, potential) = nbrs
         .into_iter()
+        .filter(|n| n.name != v)
         .combinations(2)
         .map(|c| {
             get_coefficient_for_combination(v.clone(), c[0].name.clone(), c[1].name.clone(), graph)
@@ -91,8 +93,9 @@ where
     A: Clone + Send + Sync,
 {
     graph
-        .get_successors_or_neighbors(nn)
+        .get_successors_or_neighbors(nn.clone())
         .into_iter()
         .map(|n| n.name.clone())
+        .filter(|name| *name != nn)
         .collect::<HashSet<T>>()
 }
